@@ -1,4 +1,5 @@
 import QuillModel.Exit.Proofs
+import QuillModel.Exit.Program
 /-!
 # C07 — stopping, exiting or dying by a handled signal loses no completed statement  (PARTIAL)
 
@@ -386,5 +387,95 @@ theorem C07_signal_outside_handler_cycle (ops : List LOp) (thread : Nat) (s : Si
 
 example : (Life.run R {} [.startSH, .stop, .startSH]).ctxTid = 2 := by decide
 example : (Life.run R {} [.startSH, .stop]).ctxTid = 0 := by decide
+
+/-! ## whole programs: every point of every sequence of log statements, start/stop cycles and background progress -/
+
+/-- **nothing lost, nothing duplicated, order kept — at every point of every program**: whatever the program logs,
+    however often it starts and stops the backend (redundantly or not), however much the backend has written in the
+    background: written ++ still queued = the completed statements in program order -/
+theorem C07_program_conservation (ops : List POp) (hne : noExit ops = true) :
+    (Sys.run R {} ops).fe.written ++ (Sys.run R {} ops).fe.queue = logged ops := by
+  have := (Sys.conservation R ops {} rfl hne).1
+  simpa using this
+
+example : Sys.run R {} [.log 0, .life .start, .log 1, .bg 1, .log 2, .life .stop, .log 3] =
+    { life := Life.run R {} [.start, .stop], fe := { queue := [.stmt 3], written := [.stmt 0, .stmt 1, .stmt 2] } } := by
+  decide
+
+/-- the life-cycle component of a program run is the life-cycle machine on the program's life-cycle operations -/
+theorem C07_program_life (ops : List POp) : (Sys.run R {} ops).life = Life.run R {} (lifeOps ops) :=
+  Sys.run_life R ops {}
+
+/-- **stop loses nothing**: at every point of every program at which a backend runs, `Backend::stop()` returns with
+    every statement completed before it in the destination, in order, nothing queued — including what was logged
+    while the backend was stopped in earlier cycles — and with the backend not running -/
+theorem C07_stop_writes_everything (ops : List POp) (hne : noExit ops = true)
+    (hrun : (Sys.run R {} ops).life.running = true) :
+    let s := Sys.run R {} (ops ++ [.life .stop])
+    s.fe.queue = [] ∧ s.fe.written = logged ops ∧ s.life.running = false := by
+  obtain ⟨hc, hx⟩ := Sys.conservation R ops {} rfl hne
+  have hinv : LInv (Sys.run R {} ops).life := by rw [C07_program_life]; exact C07_life_invariant _
+  simp only [Sys.run_append]
+  generalize Sys.run R {} ops = t at hc hx hrun hinv
+  have hstop : (t.life.step R .stop).running = false := by
+    simp only [Life.step, hx, Bool.false_eq_true, ↓reduceIte, stopBackendThread_spec t.life hinv]
+    simp [R, LParams.repaired, Life.joinedAll]
+  simp only [Sys.run, List.foldl_cons, List.foldl_nil, Sys.step, hrun, hx]
+  refine ⟨by simp [Fe.drain], ?_, hstop⟩
+  simpa [Fe.drain] using hc
+
+example : (Sys.run R {} [.life .startSH, .log 0, .log 1, .bg 1, .log 2]).life.running = true := by decide
+
+/-- **normal exit loses nothing**: at every point of every program, return from `main` / `exit()` ends with every
+    completed statement in the destination, in order — whether a backend runs (the `atexit` handler stops, drains and
+    joins it) or was stopped before (the final `_exit()` of `~ManualBackendWorker` drains what was logged since) —
+    and with every backend thread ever spawned drained and joined -/
+theorem C07_exit_writes_everything (ops : List POp) (hne : noExit ops = true) :
+    let s := Sys.run R {} (ops ++ [.life .exit])
+    s.fe.queue = [] ∧ s.fe.written = logged ops ∧ s.life.running = false ∧ s.life.joined = s.life.spawned ∧
+    s.life.exited = true := by
+  obtain ⟨hc, hx⟩ := Sys.conservation R ops {} rfl hne
+  have hl := C07_program_life ops
+  have hexit := C07_exit_drains_and_joins (lifeOps ops) (by rw [← hl]; exact hx)
+  simp only [run_append] at hexit
+  rw [← hl] at hexit
+  simp only [Sys.run_append]
+  generalize Sys.run R {} ops = t at hc hx hexit
+  obtain ⟨e1, e2, _, _, _, e6⟩ := hexit
+  simp only [Life.run, List.foldl_cons, List.foldl_nil] at e1 e2 e6
+  simp only [Sys.run, List.foldl_cons, List.foldl_nil, Sys.step, hx, Bool.false_eq_true, ↓reduceIte]
+  refine ⟨by simp [Fe.drain], ?_, e1, e2, e6⟩
+  simpa [Fe.drain] using hc
+
+example : (Sys.run R {} [.life .start, .log 0, .life .stop, .log 1, .life .exit]).fe =
+    { queue := [], written := [.stmt 0, .stmt 1] } := by decide
+
+/-- **a handled signal loses nothing, at every point of every program**: if the current cycle was started with the
+    handler, a signal on a frontend thread (first entrant, logger present) leaves every statement completed before it,
+    in order, followed by the notice(s), nothing queued, and the process ends by that signal — `exit(0)` for
+    SIGINT/SIGTERM -/
+theorem C07_program_signal (ops : List POp) (hne : noExit ops = true) (thread : Nat) (s : Sig) (pr info crit : Bool) :
+    let st := Sys.run R {} ops
+    st.life.ctxTid ≠ 0 → thread ≠ st.life.workerTid →
+    exec (st.life.env info crit) s (onSignal (st.life.ctx thread s true pr true true)) false false st.fe =
+      ({ queue := [], written := logged ops ++ notices (st.life.env info crit) s },
+       if s.graceful then .exit0 else .diedBy s) := by
+  intro st hctx hthr
+  have hc := C07_program_conservation ops hne
+  have hl : st.life = Life.run R {} (lifeOps ops) := C07_program_life ops
+  have hstale := C07_handler_id_never_stale (lifeOps ops)
+  simp only at hstale
+  rw [← hl] at hstale
+  obtain ⟨hrun, hid, _⟩ := hstale hctx
+  have hx : st.life.ctx thread s true pr true true = Ctx.frontend s pr := by
+    simp only [Life.ctx, Ctx.frontend, Ctx.mk.injEq, true_and, and_true, bne_iff_ne, ne_eq, beq_eq_false_iff_ne]
+    refine ⟨by simpa using hctx, ?_⟩
+    rw [hid]; exact hthr
+  rw [hx, exec_frontend _ s pr _ (by simpa [Life.env] using hrun)]
+  show (_, _) = (_, _)
+  rw [show st.fe.written ++ st.fe.queue = logged ops from hc]
+
+example : noExit [.life .startSH, .log 0, .bg 1, .log 1] = true ∧
+    (Sys.run R {} [.life .startSH, .log 0, .bg 1, .log 1]).life.ctxTid = 1 := by decide
 
 end Exit
